@@ -45,6 +45,29 @@ fn direct_fault_case(rng: &mut Rng, ctx: &mut Ctx) {
     s.quantum = *rng.pick(&[1usize, 2, 3, 5000, 5000]);
     let missing = *rng.pick(&[0u32, 5, 15, 777, 9999, 65529]);
     let pre = *rng.pick(&["", "A=1:", "PRINT \"é→\";:", "?\"x\":", "Z$=\"ü\"+\"ß\":"]);
+    if rng.chance(1, 5) {
+        // faults that the code generator finds in the direct line (wrong argument counts, reserved names,
+        // statements that are illegal there): no program line is to blame, the range lies in what was typed
+        let src = format!("{}{}", pre, rng.pick(&["A$=LEFT$(\"X\")", "DIM SIN(3)", "PRINT LEN(1,2)", "DATA 1", "DEF FNA(X)=X", "PRINT MID$(\"A\")", "PRINT CHR$()", "K=ASC(\"A\",2)"]));
+        let text = format!("{}{}", if with_program { "10 PRINT \"P\"\n20 END\n" } else { "" }, src);
+        mon::journal(&text);
+        let listed = basic::lang::Line::new(&src).to_string();
+        let (st, evs) = run(&mut s, &src);
+        ctx.eval(&text, true);
+        ctx.count("direct_line_codegen_faults");
+        let errors: Vec<(String, Option<u16>, std::ops::Range<usize>)> =
+            evs.iter().filter_map(|e| if let Ev::Error(d, l, c) = e { Some((d.clone(), *l, c.clone())) } else { None }).collect();
+        let bad = errors.iter().find(|(_, l, c)| l.is_some() || chars_at(&listed, c).is_none());
+        if st != Stop::Stopped || errors.is_empty() || bad.is_some() {
+            ctx.violation(
+                "range-wrong",
+                "diag:direct-line:codegen",
+                &format!("{:?} (listed {:?}) must be refused with a diagnostic that names no program line and lies inside the typed text; got {:?}", src, listed, errors),
+                &text,
+            );
+        }
+        return;
+    }
     let (tail, expect, code): (String, String, &str) = match rng.usize(9) {
         0 => (format!("GOTO {}", missing), missing.to_string(), "UNDEFINED LINE"),
         1 => (format!("GOSUB {}", missing), missing.to_string(), "UNDEFINED LINE"),
